@@ -319,9 +319,9 @@ def selftest(repo: Repo):
         v("content-always-lstrip", L, "            if lstrip:\n                value = value.lstrip()", "            if True:\n                value = value.lstrip()", "C10-LEAD"),
         v("raw-body-stripped", L, '            value = match.group("raw")\n', '            value = match.group("raw").strip()\n', "C10-"),
         v("raw-rule-drops-end-hyphen", L, 'rf"{tag_s}-?\\s*endraw\\s*(?P<rsr_e>-?){tag_e}"', 'rf"{tag_s}-?\\s*endraw\\s*-?{tag_e}"', "C10-TRAIL"),
-        v("lookahead-without-hyphen", L, 'content_pattern = rf".+?(?=(({tag_s}|{stmt_s})(?P<rstrip>-?))|$)"', 'content_pattern = rf".+?(?=(({tag_s}|{stmt_s}))|$)"', "C10-"),
+        v("lookahead-without-hyphen", L, 'content_pattern = rf".+?(?=(({tag_s}|{stmt_s})(?P<rstrip>-?))|\\Z)"', 'content_pattern = rf".+?(?=(({tag_s}|{stmt_s}))|$)"', "C10-"),
         v("comment-node-writes", "liquid/builtin/tags/comment_tag.py", "        \"\"\"Render the node to the output buffer.\"\"\"\n        return 0", "        \"\"\"Render the node to the output buffer.\"\"\"\n        return buffer.write(self.text or \"\")", "C10-SILENT"),
         v("content-node-strips", "liquid/builtin/content.py", "        return buffer.write(self.text)", "        return buffer.write(self.text.strip())", "C10-TEXT"),
         v("raw-empty-skips-flag", L, '            value = match.group("raw")\n', '            value = match.group("raw")\n            if not value:\n                continue\n', "C10-TRAIL"),
-        v("comment-lookahead-missing", L, 'content_pattern = rf".+?(?=(({tag_s}|{stmt_s}|{comment_s})(?P<rstrip>-?))|$)"', 'content_pattern = rf".+?(?=(({tag_s}|{stmt_s})(?P<rstrip>-?))|$)"', "C10-LEAD"),
+        v("comment-lookahead-missing", L, 'content_pattern = rf".+?(?=(({tag_s}|{stmt_s}|{comment_s})(?P<rstrip>-?))|\\Z)"', 'content_pattern = rf".+?(?=(({tag_s}|{stmt_s})(?P<rstrip>-?))|\\Z)"', "C10-LEAD"),
     ]
